@@ -128,6 +128,13 @@ func (m MapSchema[K, V]) Unserialize(data any) (any, error) {
 		if err != nil {
 			return nil, ConstraintErrorAddPathSegment(err, fmt.Sprintf("[%v]", k.Interface()))
 		}
+		if result.MapIndex(reflect.ValueOf(unserializedKey)).IsValid() {
+			// Two different raw keys, such as "1" and 1, mean the same key. Which value wins would depend on the
+			// map iteration order, so this is an error rather than a silent choice.
+			return nil, &ConstraintError{
+				Message: fmt.Sprintf("Duplicate key '%v' after unserialization", unserializedKey),
+			}
+		}
 		result.SetMapIndex(reflect.ValueOf(unserializedKey), reflect.ValueOf(unserializedValue))
 	}
 	return result.Interface(), nil
